@@ -219,7 +219,14 @@ fn exec(live: &mut Live, op: &Value, dict: &Dict) -> Value {
                 },
                 "set_len" => {
                     live.last_fill = 0;
-                    res_unit(s.set_len(op["n"].as_u64().unwrap()))
+                    // symbolic lengths no file can have (refused in both versions)
+                    let n = match op["sym"].as_str() {
+                        Some("u64max") => u64::MAX,
+                        Some("u64max1") => u64::MAX - 1,
+                        Some("i64max") => i64::MAX as u64,
+                        _ => op["n"].as_u64().unwrap(),
+                    };
+                    res_unit(s.set_len(n))
                 }
                 "flush" => res_unit(s.flush()),
                 "len" => ok(json!(s.len())),
